@@ -2128,3 +2128,58 @@ func calleesWithin(rc *RuleCtx, f *ssa.Function, pkg string) []*ssa.Function {
 	})
 	return out
 }
+
+func init() {
+	register(&Rule{ID: "C03.keepid", Floor: 4, Also: []string{"C01"},
+		Text: "chown(2) leaves an id unchanged when -1 is passed for it: in the setOwner routines every store of a parameter into the uid / gid of a node is made under the test that the parameter is not -1",
+		Run:  c03KeepID})
+}
+
+func c03KeepID(rc *RuleCtx) {
+	for _, pk := range []string{"memfs", "orefafs"} {
+		for _, f := range rc.C.srcFuncs(pk) {
+			if f.Name() != "setOwner" {
+				continue
+			}
+			eachInstr(f, func(in ssa.Instruction) {
+				st, ok := in.(*ssa.Store)
+				if !ok {
+					return
+				}
+				fa, ok := st.Addr.(*ssa.FieldAddr)
+				if !ok {
+					return
+				}
+				fld := fieldName(fa.X.Type(), fa.Field)
+				if fld != "uid" && fld != "gid" {
+					return
+				}
+				p, isP := strip(st.Val).(*ssa.Parameter)
+				if !isP {
+					return
+				}
+				cons := fmt.Sprintf("%s %s kept for -1", funcName(f), fld)
+				guarded := false
+				for _, fact := range factsAt(st.Block()) {
+					c, truth := normCond(fact.Cond, fact.Truth)
+					bo, ok := c.(*ssa.BinOp)
+					if !ok || (bo.Op != token.EQL && bo.Op != token.NEQ) {
+						continue
+					}
+					for _, pair := range [][2]ssa.Value{{bo.X, bo.Y}, {bo.Y, bo.X}} {
+						if strip(pair[0]) == ssa.Value(p) {
+							if k, isC := constInt(pair[1]); isC && k == -1 && (bo.Op == token.NEQ) == truth {
+								guarded = true
+							}
+						}
+					}
+				}
+				if guarded {
+					rc.good(cons, st.Pos(), "stored only when the argument is not -1")
+				} else {
+					rc.bad(cons, st.Pos(), "the argument is stored even when it is -1: Chown(name, -1, gid) makes the owner -1 instead of leaving it unchanged")
+				}
+			})
+		}
+	}
+}
